@@ -8,7 +8,7 @@ import fw
 
 BASES = 'ACGT'
 ERR = {'ValueError': 1, 'IndexError': 2}
-QUALS = [2, 10, 20, 30, 30, 37]
+QUALS = [0, 2, 10, 20, 30, 30, 37]
 
 
 # ------------------------------------------------------------------------------------------ generators
@@ -263,7 +263,7 @@ class Prop(fw.PropBase):
         quick = self.tier == 'quick'
         refs = self.refs()
         cases = self.corpus_cases() + [self.WITNESS_D16]
-        n_rand = 900 if quick else 7000
+        n_rand = 900 if quick else 15000
         for i in range(n_rand):
             n = self.rng.choice([1, 2, 2, 3, 3, 4, 5, 6, 8, 12]) if i % 3 else self.rng.randint(1, 12)
             cases.append(gen_case(self.rng, refs, n, wild=(i % 4 == 0), tier=self.tier))
@@ -435,7 +435,7 @@ class Prop(fw.PropBase):
                 continue
             if g[0] != 0:
                 kind = 'error'
-            elif g[1] == exp_head and not self.head:
+            elif g[1] == exp_head and not self.head and self.d16_present():
                 kind = 'D16-r2-only-fragment-not-counted'
             else:
                 gk = {(a, b): c for a, b, c in g[1]}
@@ -450,6 +450,13 @@ class Prop(fw.PropBase):
                     kind = 'order-or-duplication-dependence'
             out.append((kind, o, g, exp))
         return out
+
+    def d16_present(self):
+        """does the implementation drop R2-only fragments on the canonical D16 witness (1 x R1-only A vs 2 x R2-only C)?"""
+        if not hasattr(self, '_d16'):
+            r = self.run_impl_cases(self.refs(), [self.WITNESS_D16])['cases'][0]
+            self._d16 = code_of(r['outs'][0]) == [0, [[0, 20 + i, 65] for i in range(4)]]
+        return self._d16
 
     def search(self):
         res = getattr(self, 'res_', None)
@@ -522,8 +529,7 @@ class Prop(fw.PropBase):
     def replay_known(self, finding):
         if not str(finding.get('key', '')).startswith('D16'):
             return False
-        r = self.run_impl_cases(self.refs(), [self.WITNESS_D16])['cases'][0]
-        return code_of(r['outs'][0]) == [0, [[0, 20 + i, 65] for i in range(4)]]
+        return self.d16_present()
 
     def matches(self, finding, witness):
         return str(finding.get('key', '')).startswith('D16') and finding.get('key') == witness.get('key')
